@@ -24,7 +24,7 @@ RULE_RIGHT_REPEAT = 0
 # 1 = Text.rstrip_end compares the CHARACTER count with the cell width, so a rule / panel title with zero-width characters
 #     that exactly fills its width loses trailing blanks (finding rule-rstrip-zero-width);
 #     0 = the repair in pending_fixes/C08-rstrip-end-counts-cells.diff is applied.
-RSTRIP_COUNTS_CHARS = 1
+RSTRIP_COUNTS_CHARS = 0
 # 1 = Columns(width=w) computes max_width // (w + padding) columns, possibly 0, and raises ZeroDivisionError (F11);
 #     0 = the repair `max(1, max_width // max(1, w + padding))` (pending_fixes/C08-columns-width-plus-padding-zero.ALTERNATIVE-to-C14.diff) is applied.
 COLUMNS_ZERO_COUNT = 0
